@@ -17,6 +17,7 @@ func init() {
 			"R18.2 deletion range: every claim Delete sits in a loop whose index starts at old−1 (old = the replica count read before it is overwritten), steps by −1 and continues while index ≥ the requested count; the claim name is '<template>-<set>-<index>' from those three sources; " +
 			"R18.3 guards: Delete only under deletePVC ∧ the Update succeeded; Update only when the replica count of the StatefulSet just read from the API server (Get) is set and differs from the request, and no successful return precedes that read; the value stored is the request; " +
 			"R18.4 rolling update: a manager is appended only under Status.Replicas == Status.UpdatedReplicas; R18.5 the StatefulSet a manager keeps is an object of its own iteration (not the address of a variable shared by all iterations under the language version of go.mod). " +
+			"R18.4 also: every list of managers Replicas returns is built in that call from the listing of that call. " +
 			"Not decided: the behaviour of the Kubernetes API server / fake clientset.",
 		Assumptions: []string{"go/types and go/ssa are correct", "StatefulSet pod naming <set>-<ordinal> and claim naming <template>-<set>-<ordinal> (Kubernetes convention)"}})
 }
@@ -425,6 +426,21 @@ func runC18(p *engine.Prog, r *engine.Report) {
 	n := 0
 	for _, fn := range k8sFuncs {
 		fi := p.Info(fn)
+		// every list of managers the function returns was built in this very call (through the guarded appends below):
+		// a list kept from an earlier call was checked against an earlier state of the StatefulSets
+		if fn.Signature.Results().Len() >= 1 && strings.Contains(fn.Signature.Results().At(0).Type().String(), "shard.Manager") && fn.Parent() == nil {
+			var probs []string
+			for _, ret := range returnsOf(fn) {
+				v := returnedValue(ret, 0)
+				if v == nil || isNilConst(v) {
+					continue
+				}
+				if !builtHere(v, map[ssa.Value]bool{}) {
+					probs = append(probs, "the list returned at "+p.Rel(ret.Pos())+" is "+short(fi.T(v).S)+", not one built from this call's listing")
+				}
+			}
+			r.Check(len(probs) == 0, "R18.4-rolling-update", "lists returned by "+engine.FuncName(fn), engine.FuncName(fn), "every returned list is built in the call from StatefulSets listed and checked in the call", strings.Join(probs, "; "))
+		}
 		for _, in := range allInstrs(fn) {
 			call, ok := in.(*ssa.Call)
 			if !ok {
@@ -475,7 +491,6 @@ func runC18(p *engine.Prog, r *engine.Report) {
 
 func controlsC18(p *engine.Prog) []Control { return nil }
 
-
 // countedFromZero recognises the induction variable of "for i := 0; i < len(<...what...>); i++": a header phi of the
 // constant 0 and of itself plus one, tested against a length at the loop's exit test.
 func countedFromZero(fi *engine.FuncInfo, ph *ssa.Phi, what string) bool {
@@ -507,4 +522,34 @@ func countedFromZero(fi *engine.FuncInfo, ph *ssa.Phi, what string) bool {
 	}
 	bt := fi.T(cmp.Y).S
 	return strings.HasPrefix(bt, "len(") && strings.Contains(bt, what)
+}
+
+// builtHere: v is a slice made and appended to in this function (through phis), not something read from elsewhere.
+func builtHere(v ssa.Value, seen map[ssa.Value]bool) bool {
+	if seen[v] {
+		return true
+	}
+	seen[v] = true
+	switch x := v.(type) {
+	case *ssa.Phi:
+		for _, e := range x.Edges {
+			if !builtHere(e, seen) {
+				return false
+			}
+		}
+		return true
+	case *ssa.Call:
+		if bi, ok := x.Call.Value.(*ssa.Builtin); ok && bi.Name() == "append" {
+			return builtHere(x.Call.Args[0], seen)
+		}
+		return false
+	case *ssa.MakeSlice:
+		return true
+	case *ssa.Slice:
+		_, ok := x.X.(*ssa.Alloc)
+		return ok
+	case *ssa.Const:
+		return true
+	}
+	return false
 }
